@@ -868,7 +868,9 @@ func acceptanceCases(rng *hx.Rng, n int) {
 		statedb, _ := state.New(common.Hash{}, state.NewDatabase(db))
 		statedb.AddBalance(addr, new(big.Int).Lsh(big1, 100))
 		chain := &testChain{statedb, 10000000, new(event.Feed)}
-		pool := core.NewTxPool(core.DefaultTxPoolConfig, cfg, chain)
+		pcfg := core.DefaultTxPoolConfig
+		pcfg.Journal = "" // no journal file
+		pool := core.NewTxPool(pcfg, cfg, chain)
 		own := sgn{"E", cfg.ChainId}
 		to := common.BytesToAddress(rng.Bytes(20))
 		mk := func(s sgn, nonce uint64) (*types.Transaction, raw) {
@@ -977,7 +979,7 @@ func main() {
 	}
 	rounds := 1
 	if thorough {
-		rounds = 40
+		rounds = 10
 	}
 	var pool []*signedTx
 	for round := 0; round < rounds; round++ {
@@ -997,7 +999,7 @@ func main() {
 	mr := rng.Fork(2)
 	for i, st := range pool {
 		codecCases(st)
-		mutationCases(mr, st, thorough || i%12 == 0)
+		mutationCases(mr, st, (thorough && i%2 == 0) || i%12 == 0)
 		if i%3 == 0 || thorough {
 			unjsonMutations(mr, st)
 		}
